@@ -239,6 +239,18 @@ def read_layers(ctx, F):
                 ctx.ok('C18.R3', 'read_layers#pattern', 'the name pattern admits every marker of the table (%s) and captures it as group 2' % ', '.join(markers), pats[0][1])
         except _re.error as e:
             ctx.undecided('C18.R3', 'read_layers#pattern', 'name pattern is not translatable: %s' % e, pats[0][1])
+    # index order: the entry names are sorted before the sweep (the dialect's indices are zero-padded, so name order is index order)
+    cfg = b.cfg()
+    srcs = [(bb, R.call_args(bb)[0]) for bb, t in b.calls_to('Iterator::next') if any(is_call(x, 'NpzReader::names') for x in walk(R.call_args(bb)[0]))]
+    sorts = [(bb, R.call_args(bb)[0]) for bb, t in b.calls() if Callee(t['func']).name in ('sort', 'sort_unstable', 'sort_by', 'sort_by_key', 'sort_unstable_by', 'sort_unstable_by_key', 'sort_by_cached_key')]
+    if not srcs:
+        ctx.lost('C18.R3', 'sweep over NpzReader::names()')
+    else:
+        h_bb, seq = srcs[0]
+        okorder = any(s(a) == s(seq) and cfg.dominates(sb, h_bb) and not cfg.reaches(h_bb, sb) for sb, a in sorts) or \
+            any(is_call(x, 'Itertools::sorted', 'Itertools::sorted_unstable') for x in walk(seq))
+        (ctx.ok if okorder else ctx.bad)('C18.R3', 'read_layers#order', 'the archive\'s entry names are sorted before they are swept: layers come out in index order' if okorder else
+                                         'the entries are swept in the archive\'s own order (no sort of the names before the loop): layers can come out of index order', b.span)
     for marker, variant in table.items():
         site = 'read_layers#marker:' + marker
         if marker not in seen:
